@@ -45,6 +45,28 @@ FIRST = {
  'C18-m3': ['C18'], 'C18-m4': ['C18'],
  'C19-m3': ['C19'], 'C19-m4': ['C19'],
  'C20-m3': ['C20'], 'C20-m4': [],
+ # round 3 (m5, m6): agents were told all four earlier attempts per property
+ 'C01-m5': [],   # C01 and C18 inconclusive (watchdog): the change makes compilation hang
+ 'C01-m6': ['C01'],
+ 'C02-m5': [], 'C02-m6': [],
+ 'C03-m5': ['C09'], 'C03-m6': [],
+ 'C04-m5': ['C04'], 'C04-m6': ['C04', 'C09'],
+ 'C05-m5': ['C05', 'C07'], 'C05-m6': ['C05', 'C09'],
+ 'C06-m5': ['C06', 'C09'], 'C06-m6': ['C01'],
+ 'C07-m5': ['C07', 'C12'], 'C07-m6': [],
+ 'C08-m5': ['C09'], 'C08-m6': ['C08'],
+ 'C09-m5': ['C05', 'C09'], 'C09-m6': ['C05', 'C09'],
+ 'C10-m5': ['C02', 'C05', 'C10'], 'C10-m6': ['C10'],
+ 'C11-m5': [], 'C11-m6': ['C09', 'C11', 'C14', 'C17'],
+ 'C12-m5': ['C08'], 'C12-m6': [],
+ 'C13-m5': ['C13', 'C18'], 'C13-m6': [],
+ 'C14-m5': ['C14'], 'C14-m6': ['C14'],
+ 'C15-m5': ['C15'], 'C15-m6': ['C15'],
+ 'C16-m5': ['C16'], 'C16-m6': ['C16'],
+ 'C17-m5': ['C17'], 'C17-m6': ['C12'],
+ 'C18-m5': ['C18'], 'C18-m6': ['C18'],
+ 'C19-m5': ['C19'], 'C19-m6': [],
+ 'C20-m5': ['C20'], 'C20-m6': ['C20'],
 }
 # after strengthening the owning check (re-run of the owning check only)
 AFTER = {
@@ -67,6 +89,19 @@ AFTER = {
  'C12-m4': (['C12', 'C07'], 'C12 / C07: stored programs that read a macro loop variable, referenced from loop bodies (per element, two loops, outside then inside, nested, through a chain); the reference model now evaluates a referenced program under the bindings in effect at the reference'),
  'C13-m4': (['C13'], 'C13: a backslash followed by 8 or 9 is asserted to be a malformed octal escape (was listed as unspecified)'),
  'C17-m4': (['C17'], 'C17: loop-variable names that also occur free in the range / reduce seed; the generator now re-uses outer variable names as loop variables'),
+ 'C02-m5': (['C02'], 'C02: a sign in front of a literal that carries a postfix chain (9 literal receivers x 12 chains): bare, spaced and grouped spelling evaluate alike'),
+ 'C02-m6': (['C02'], 'C02: relation chains (a < b < c) in the evaluated trees; minimal and fully parenthesised renderings must agree'),
+ 'C03-m5': (['C03'], 'C03: chains of three operands of equal precedence over 13 boundary values, all 8 literal/bound patterns, against the model applied twice; binary points also in the two mixed literal/bound forms'),
+ 'C03-m6': (['C03'], 'C03: i64::MIN % -1 must be exactly 0 (the model had accepted "0 or failure")'),
+ 'C06-m6': (['C06'], 'C06: the overflow-checked profile also runs in the quick tier'),
+ 'C07-m6': (['C07'], 'C07: map(x,p,e) whose transform would fail on rejected elements (guard idiom) and a recorded transform (visited only for accepted elements)'),
+ 'C08-m5': (['C08'], 'C08: the failing / absent argument kinds spelled with literals only (evaluated while compiling)'),
+ 'C11-m5': (['C11'], 'C11: one evaluation of several seconds (8 million innermost macro bodies) must give its value'),
+ 'C12-m5': (['C12'], 'C12: reference constructs with a fallback after the reference (coalesce(p, 0), also inside a macro body, || true)'),
+ 'C12-m6': (['C12'], 'C12: member collisions in call position (m.size() with a field size holding a non-callable value must fail, not run the method)'),
+ 'C13-m6': (['C13'], 'C13: a high-surrogate \\u escape followed by a second escape or character is still rejected'),
+ 'C17-m6': (['C17'], 'C17: type names occurring in the source are bound as (unreported) variables in the relevance check; match type patterns in the position grid'),
+ 'C19-m6': (['C19', 'C11'], 'C19: programs with a map constant are read back 6 more times and each copy must behave like the original; behaviour that depends on the layout of a rebuilt map is now a violation instead of a skip; macros over map constants in the grid. C11: the same macros and string(map) in the history pool and on 16 threads'),
  'C20-m4': (['C20'], 'C20: the SQL re-parser lets a type name absorb a following [..] / (..) as SQL does - which also exposed the same defect on the unchanged tree for the empty map literal (repaired, 0ecc3cf)'),
 }
 for d in sorted(os.listdir(ROOT)):
